@@ -226,7 +226,8 @@ class SetEncoder(encoder.SequenceEncoder):
                 except KeyError:
                     raise error.PyAsn1Error('Component name "%s" not found in %r' % (namedType.name, value))
 
-                if namedType.isDefaulted and self._isDefaultValue(component, namedType):
+                if namedType.isDefaulted and self._isDefaultValue(
+                        component, namedType, encodeFun, options):
                     continue
 
                 compsMap[id(component)] = namedType
